@@ -153,32 +153,34 @@ class PairType(MichelsonType, ADTMixin, prim='pair', args_len=None):
             else:
                 yield path + str(i), item
 
-    def iter_comb(self, include_nodes=False) -> Generator[MichelsonType, None, None]:
+    def iter_comb(self, include_nodes=False, ignore_annots=False) -> Generator[MichelsonType, None, None]:
+        # NOTE: annotated nested pairs are kept as records when rendering for humans only,
+        # instructions and the canonical (packed) form must not depend on annotations
         if include_nodes:
             yield self
         for i, item in enumerate(self):
-            if i == 1 and isinstance(item, PairType) and not (item.field_name or item.type_name):
-                yield from item.iter_comb(include_nodes=include_nodes)
+            if i == 1 and isinstance(item, PairType) and (ignore_annots or not (item.field_name or item.type_name)):
+                yield from item.iter_comb(include_nodes=include_nodes, ignore_annots=ignore_annots)
             else:
                 yield item
 
     def unpairn_comb(self, count) -> Generator[MichelsonType, None, None]:
         for i, item in enumerate(self):
-            if i == 1 and isinstance(item, PairType) and not (item.field_name or item.type_name) and count > 0:
+            if i == 1 and isinstance(item, PairType) and count > 0:
                 yield from item.unpairn_comb(count - 1)
             else:
                 yield item
 
     def access_comb(self, idx: int) -> MichelsonType:
-        return next(item for i, item in enumerate(self.iter_comb(include_nodes=True)) if i == idx)
+        return next(item for i, item in enumerate(self.iter_comb(include_nodes=True, ignore_annots=True)) if i == idx)
 
     def update_comb(self, idx: int, element: MichelsonType) -> 'PairType':
         if idx % 2 == 1:
-            leaves = [element if 2 * i + 1 == idx else item for i, item in enumerate(self.iter_comb())]
+            leaves = [element if 2 * i + 1 == idx else item for i, item in enumerate(self.iter_comb(ignore_annots=True))]
         else:
-            leaves = [item for i, item in enumerate(self.iter_comb()) if 2 * i + 1 < idx]
+            leaves = [item for i, item in enumerate(self.iter_comb(ignore_annots=True)) if 2 * i + 1 < idx]
             if isinstance(element, PairType):
-                leaves.extend(element.iter_comb())
+                leaves.extend(element.iter_comb(ignore_annots=True))
             else:
                 leaves.append(element)
         return type(self).from_comb(leaves)
@@ -190,7 +192,7 @@ class PairType(MichelsonType, ADTMixin, prim='pair', args_len=None):
         if mode == 'legacy_optimized':
             items = self.items
         else:
-            items = list(self.iter_comb())
+            items = list(self.iter_comb(ignore_annots=mode == 'optimized'))
         args = [arg.to_micheline_value(mode=mode, lazy_diff=lazy_diff) for arg in items]
         if mode in ['readable', 'legacy_optimized']:
             return {'prim': 'Pair', 'args': args}
